@@ -162,9 +162,18 @@ Definition hit_of (code : string) (matches : rule -> bool) (tags : list str) (f 
   if String.eqb code "matches&&tag_ok" then Some (matches f && tag_ok tags f)
   else if String.eqb code "tag_ok&&matches" then Some (tag_ok tags f && matches f)
   else None.
+Lemma hit_of_either code matches tags f :
+  code = "matches&&tag_ok" \/ code = "tag_ok&&matches" -> hit_of code matches tags f = Some (hit matches tags f).
+Proof.
+  intros [-> | ->]; unfold hit_of, hit; cbn [String.eqb Ascii.eqb Bool.eqb]; [reflexivity|].
+  rewrite Bool.andb_comm. reflexivity.
+Qed.
 Theorem lookup_structure_is_model matches tags f :
   hit_of check_hit matches tags f = Some (hit matches tags f)
   /\ hit_of check_all_hit matches tags f = Some (hit matches tags f)
   /\ check_on_hit = "return" /\ check_all_on_hit = "push"
   /\ optimize_threshold = 1%N /\ optimize_sorts_by = "id".
-Proof. repeat split; reflexivity. Qed.
+Proof.
+  (* either order of the two tests (the tag test may come first: harmless rewrite H3) *)
+  repeat split; try reflexivity; apply hit_of_either; first [left; reflexivity | right; reflexivity].
+Qed.
